@@ -1422,3 +1422,11 @@ class DivisorSummatoryLargeBounded(Bounded):
 
 
 BOUNDED = [StatesEnumerationBounded(), RoundTripBounded(), LargeIndexBounded(), DivisorSummatoryLargeBounded()]
+
+
+def LATE_UNITS():
+    # "the stateful index projection returns each admissible state exactly once": the projection is driven by the inversion
+    # sampler, which restarts it behind the last state it stored -- the joint lemma (real bodies of both, store capped) lives
+    # with the samplers (c02) and is part of this property too
+    from contracts import c02
+    return [c02.InversionOverTheStatesManager()]
